@@ -9,6 +9,7 @@ import OdakModel.Generated.Colour
 import OdakModel.Generated.GradBreakers
 import Mathlib.Logic.Function.Iterate
 import OdakProofs.Lemmas.GenMeshObject
+import OdakProofs.Lemmas.MeshObjectInst
 
 /-!
 # C05 – the dual-number evaluation of a model function is its value and its true derivative
@@ -513,5 +514,52 @@ theorem C05_gen_mesh_keeps_the_callers_heights (E : MeshOps T R) (h : Heap T) (s
     ∃ X Y log, meshInitG E (PlanarMeshAttrs.empty : PlanarMeshAttrs T R) h sl nl al ol () (some l) =
       some ((⟨al, ol, sl, nl, l, X, Y⟩ : MeshObj T).toSelf, h, (), log) :=
   ⟨_, _, _, gen_meshInitG_eq E h sl nl al ol (some l) sv nv g1 g2⟩
+
+end Odak
+
+/-! ## The regenerated `planar_mesh` object INSTANTIATED with the regenerated batched geometry (work package 16)
+  `C05_gen_mesh_mirror_reads_current_heights` is abstract over a record `MeshOps` whose `mirrorLoop` stands for "the loop of `mirror` over the
+  triangles"; the law of reflection per ray and triangle (C10 / C11) is about `Gen.mirrorT`.  Here the record is `meshOpsGrid`
+  (`OdakModel/MeshObjectInst.lean`): `mirrorLoop` IS `Gen.mirrorT` on the rays and triangles read from the tensors, `triangulate` the two
+  triangles per lattice cell rotated with the regenerated mode table.  One statement, no uninterpreted operation. -/
+namespace Odak
+open Gen
+
+/-- **`mirror` of the regenerated object returns reflections at the triangles of the CURRENT heights.**  After ANY list `pre` of calls
+    (`mirror`, `get_triangles`, `get_squares`, interleaved with in-place updates `learn v` of the heights by an optimiser) a `mirror(rays)`
+    call leaves the object as it is, stores nothing, and returns the regenerated batch `mirrorT rays tris` where `tris` are the triangles
+    computed from the content the LAST update wrote into the heights (`heightsAfter`; the lattice, angles and offset are constant); and every
+    returned ray starts at the plane hit of one input ray `i` with one of THOSE triangles `j`, inside the triangle, with the direction the
+    law of reflection gives for the ray's direction and the triangle's normal (`reflectDir` with the regenerated torch epsilon: within
+    `2e-8 |d·n|` of the mirror image, `C11_gen_reflect_unit_normal_t`) -/
+theorem C05_gen_object_mirror_is_reflection_at_current_heights (o : MeshObj (Ten ℝ)) (av ov nv : Ten ℝ) (h : Heap (Ten ℝ)) (hv0 : Ten ℝ)
+    (inv : MeshInv o h av ov nv) (hh : h.get o.heights = some hv0) (pre : List (MCall (Ten ℝ))) (rays : Ten ℝ) (m k : Nat)
+    (hm : (if (meshOpsGrid : MeshOps (Ten ℝ) ℝ).rank rays = 2 then (meshOpsGrid : MeshOps (Ten ℝ) ℝ).unsqueeze rays 0 else rays).shape.headD 0 = m + 1)
+    (hk : (meshTriangles (meshOpsGrid : MeshOps (Ten ℝ) ℝ) o av ov nv (heightsAfter hv0 pre)).shape.headD 0 = k + 1) :
+    let rays' := if (meshOpsGrid : MeshOps (Ten ℝ) ℝ).rank rays = 2 then (meshOpsGrid : MeshOps (Ten ℝ) ℝ).unsqueeze rays 0 else rays
+    let tris := meshTriangles (meshOpsGrid : MeshOps (Ten ℝ) ℝ) o av ov nv (heightsAfter hv0 pre)
+    let L := mirrorT (fun i : Fin (m + 1) => Ten.rayAt rays' i.val) (fun j : Fin (k + 1) => Ten.triAt tris j.val)
+    ∃ h1 ys, runSteps (meshStep meshOpsGrid) ((o.toSelf : PlanarMeshAttrs (Ten ℝ) ℝ), h) pre = some ((o.toSelf, h1), ys) ∧
+      h1.get o.heights = some (heightsAfter hv0 pre) ∧
+      meshStep meshOpsGrid ((o.toSelf : PlanarMeshAttrs (Ten ℝ) ℝ), h1) (.mirror rays) =
+        some ((o.toSelf, h1), (.pair (Ten.tenOfRays L.1) (Ten.tenOfRays L.2), [])) ∧
+      ∀ r ∈ L.1, ∃ (j : Fin (k + 1)) (i : Fin (m + 1)),
+        isOnTriangle (intersectSurface (Ten.rayAt rays' i.val).o (Ten.rayAt rays' i.val).d (Ten.triAt tris j.val).p0 (Ten.triAt tris j.val).p1
+          (Ten.triAt tris j.val).p2).point (Ten.triAt tris j.val).p0 (Ten.triAt tris j.val).p1 (Ten.triAt tris j.val).p2 = true ∧
+        r.o = (intersectSurface (Ten.rayAt rays' i.val).o (Ten.rayAt rays' i.val).d (Ten.triAt tris j.val).p0 (Ten.triAt tris j.val).p1
+          (Ten.triAt tris j.val).p2).point ∧
+        r.d = reflectDir reflectEpsTorch (Ten.rayAt rays' i.val).d
+          (triangleNormalDir (Ten.triAt tris j.val).p0 (Ten.triAt tris j.val).p1 (Ten.triAt tris j.val).p2) := by
+  intro rays' tris L
+  obtain ⟨h1, ys, e1, hh1, e2⟩ := mesh_mirror_after (meshOpsGrid : MeshOps (Ten ℝ) ℝ) o av ov nv h hv0 inv hh pre rays
+  refine ⟨h1, ys, e1, hh1, ?_, fun r hr => mirrorT_mem_model _ _ r hr⟩
+  rw [e2, meshMirror_grid o av ov nv (heightsAfter hv0 pre) rays m k hm hk]
+
+/-- the triangles `mirror` uses are a function of the CURRENT heights only (besides the constant lattice, angles, offset): the squares are
+    `cat(X, Y, heights now)`, and a corner of a triangle before the rotation is a lattice point with the height stored at that point -/
+theorem C05_gen_object_squares_hold_current_heights (o : MeshObj (Ten ℝ)) (hv : Ten ℝ) (i j : Int)
+    (hx : o.X.shape.getLastD 0 = 1) (hy : o.Y.shape.getLastD 0 = 1) (hz : hv.shape.getLastD 0 = 1) :
+    (meshSquares (meshOpsGrid : MeshOps (Ten ℝ) ℝ) o hv).el [i, j, 2] = hv.el [i, j, 0] :=
+  meshSquares_height_el o hv i j hx hy hz
 
 end Odak
